@@ -24,4 +24,17 @@ CHECKS = {
         "level_note": "Trusts the reference model (first package having the name wins) and that declarations are distinguishable non-nil values; trees have at most 3 levels and 6 names.",
         "assumptions": ["declarations are non-nil comparable values", "hand-written ImportablePackage implementations obey the documented contract themselves"],
     },
+    "C13": {
+        "id": "C13", "pkg": "c13", "test": "TestC13", "level": "fault_enumeration",
+        "runs": {"quick": 4000, "thorough": 600000},
+        "chunk": 2000,
+        "rule": "each run draws a template set (1-6 files: html/md/js/css/json/txt main, extends/import/render, macros with every result format incl. Markdown-in-HTML conversion, shows in all contexts of escape-relevant values, defer with and without recover), renders it fault-free to count the write calls W (Write and WriteString; the writer randomly implements io.StringWriter), then re-renders once per fault point: EVERY k in 1..W (a drawn 400-subset if W>400) x {(0,E), short write (n,E)}. "
+                "evaluations = renders; distinct_nontrivial = distinct (template set, k, kind) triples whose fault fired",
+        "components": {"real": ["scriggo.BuildTemplate", "Template.Run", "VM", "renderer", "escapers"], "stub": ["io.Writer / io.StringWriter (fault seam)", "Markdown converter passing the writer's error through, writing in 3-5 pieces"]},
+        "engine": "faultsim", "design_ref": "DESIGN.md section 5, C13",
+        "technique": "deterministic simulation with fault injection: seeded template sets, write failure (error and short write) injected at every write call of a fault-free render",
+        "level_text": "Per generated template set the failure position is enumerated exhaustively (every write call of the successful render, two failure kinds); template sets are sampled from a seeded generator. Strict oracle for templates without recover: Run returns E itself, no further write call, accepted bytes are a prefix of the fault-free output, no host panic; templates that recover are only required not to panic the host (the statement exempts them).",
+        "level_note": "Trusts that rendering is deterministic for fixed inputs (checked: a fault point that never fires is reported). Templates whose fault-free render fails are skipped and counted (outside the property). The generator's template shapes bound what is explored; corpus templates are not yet included.",
+        "assumptions": ["the Markdown converter returns the writer's error unchanged (as goldmark does)", "fault-free rendering of the generated set succeeds (otherwise the set is skipped and counted)"],
+    },
 }
